@@ -310,7 +310,8 @@ theorem rt (W : World) (env : Env) : (v : Val) → RT W env v
       have hres : resolve W env callee = .ok c :=
         henv (callee, c) (by simp [render, PyExpr.refs])
       exact ⟨.opaque c callee args n, by simp [render, eval, hres], pyEq_opaque _ _ _ _ hp.1, by simp [hashable]⟩
-  | .enum c m => fun hwf _ henv => by
+  | .enum c m => fun hwf hok henv => by
+      have hn : enumNameOK m = true := by simpa [valOK] using hok
       have hres : resolve W env c.path = .ok c :=
         henv (c.path, c) (by simp [render, PyExpr.refs])
       have hw : isEnumWith W c m = true := by
@@ -319,7 +320,7 @@ theorem rt (W : World) (env : Env) : (v : Val) → RT W env v
       split at hw
       · rename_i r ms hfind
         have hm : m ∈ ms := by simpa using hw
-        exact ⟨.enum c m, by simp [render, eval, hres, hfind, hm], pyEq_enum c m, by simp [hashable]⟩
+        exact ⟨.enum c m, by simp [render, eval, hres, hfind, hm, hn], pyEq_enum c m, by simp [hashable]⟩
       · simp at hw
   | .list xs => fun hwf hok henv => by
       obtain ⟨vs, he, hp, _⟩ := rtL W env xs (by simpa [wf] using hwf) (by simpa [valOK] using hok)
@@ -755,7 +756,9 @@ theorem no_risk (W : World) : (v : Val) → NoRisk W v
       simp [render, PyExpr.syntaxRisk, hd]
   | .float n _ => fun _ => by cases hf : n.isFin <;> simp [render, hf, PyExpr.syntaxRisk]
   | .opaque _ _ _ _ => fun _ => by simp [render, PyExpr.syntaxRisk]
-  | .enum _ _ => fun _ => by simp [render, PyExpr.syntaxRisk]
+  | .enum _ m => fun hok => by
+      have hn : enumNameOK m = true := by simpa [valOK] using hok
+      simp [render, PyExpr.syntaxRisk, hn]
   | .qname t => fun _ => by
       simp [render, PyExpr.syntaxRisk, decodeDq_jsonBody t]
   | .list xs => fun hok => by
@@ -805,7 +808,7 @@ theorem valOK_of_dom (W : World) : (v : Val) → domOK W v = true → valOK W v 
   | .str _ _, hd => by simpa [valOK, domOK] using hd
   | .bytes _ _ _, hd => by simpa [valOK, domOK] using hd
   | .qname _, _ => by simp [valOK]
-  | .enum _ _, _ => by simp [valOK]
+  | .enum _ _, hd => by simpa [valOK, domOK] using hd
   | .float _ _, hd => by simpa [valOK, domOK] using hd
   | .opaque _ _ _ _, hd => by simpa [valOK, domOK] using hd
   | .set _ xs, hd => by
